@@ -1306,14 +1306,25 @@ func (s *compoundState) txLockInitial(args *nfsv4.Lock4args, openStateID nfs40Re
 		return &nfsv4.Lock4res_default{Status: st}
 	}
 
+	// If the lock-owner already has a lock-owner file for the same
+	// file through another open-owner, share its lock count.
+	lockCount := &lockOwnerFileLockCount{}
+	for _, existingLOFS := range los.files {
+		if existingLOFS.openOwnerFile.openedFile == oofs.openedFile {
+			lockCount = existingLOFS.lockOwnerFileLockCount
+			break
+		}
+	}
+
 	// Create a new lock-owner file. Set the sequence ID to zero, as
 	// txLockCommon() will already bump it to one.
 	lofs := &nfs40LockOwnerFileState{
-		lockOwner:      los,
-		openOwnerFile:  oofs,
-		shareAccess:    oofs.shareCount.clone(oofs.shareAccess),
-		lockOwnerIndex: len(los.files),
-		stateID:        p.newRegularStateID(0),
+		lockOwner:              los,
+		openOwnerFile:          oofs,
+		shareAccess:            oofs.shareCount.clone(oofs.shareAccess),
+		lockOwnerFileLockCount: lockCount,
+		lockOwnerIndex:         len(los.files),
+		stateID:                p.newRegularStateID(0),
 	}
 	p.lockOwnerFilesByOther[lofs.stateID.other] = lofs
 	oofs.lockOwnerFiles[los] = lofs
@@ -1324,11 +1335,9 @@ func (s *compoundState) txLockInitial(args *nfsv4.Lock4args, openStateID nfs40Re
 
 	// Upon failure, undo the creation of the newly created
 	// lock-owner file. This may also remove the lock-owner if it
-	// references no other files.
+	// references no other files. Any locks the lock-owner acquired
+	// through other lock-owner files must remain.
 	if response.GetStatus() != nfsv4.NFS4_OK {
-		if lofs.lockCount > 0 {
-			panic("Failed to acquire lock on a newly created lock-owner file, yet its lock count is non-zero")
-		}
 		lofs.remove(p, nil)
 	}
 	return response
@@ -2940,7 +2949,7 @@ func (oofs *nfs40OpenOwnerFileState) removeStart(p *nfs40Program, ll *leavesToCl
 	// - RFC 7530, section 9.10, paragraph 3.
 	// - RFC 7530, section 16.2.4, paragraph 2.
 	for _, lofs := range oofs.lockOwnerFiles {
-		lofs.remove(p, ll)
+		lofs.unlockAndRemove(p, ll)
 	}
 
 	oofs.downgradeShareAccess(&oofs.shareAccess, 0, ll)
@@ -3047,19 +3056,35 @@ func (lot *lockOwnerTransaction) complete(lastResponse responseMessage) {
 	los.confirmedClient.confirmation.release(p)
 }
 
+// lockOwnerFileLockCount is the number of byte-range locks that a
+// lock-owner holds on a file. Byte-range locks are owned by the
+// lock-owner; not by the state ID through which they were acquired. If
+// a lock-owner creates multiple lock-owner files for the same file
+// through different open-owners, LOCK and LOCKU operations issued
+// through one of them may split, merge or release locks acquired
+// through the others. All of these lock-owner files therefore share a
+// single counter.
+type lockOwnerFileLockCount struct {
+	lockCount int
+}
+
 type nfs40LockOwnerFileState struct {
 	// Constant fields.
 	lockOwner     *nfs40LockOwnerState
 	openOwnerFile *nfs40OpenOwnerFileState
 	shareAccess   virtual.ShareMask
+	*lockOwnerFileLockCount
 
 	// Variable fields.
 	lockOwnerIndex int
 	stateID        nfs40RegularStateID
-	lockCount      int
 }
 
-func (lofs *nfs40LockOwnerFileState) remove(p *nfs40Program, ll *leavesToClose) {
+// unlockAndRemove releases any locks in the file that are owned by the
+// lock-owner, and subsequently removes the lock-owner file state. This
+// is performed when closing the file or forcefully removing the client
+// due to inactivity.
+func (lofs *nfs40LockOwnerFileState) unlockAndRemove(p *nfs40Program, ll *leavesToClose) {
 	if lofs.lockCount > 0 {
 		// Lock-owner still has one or more locks held on this
 		// file. Issue an unlock operation that spans the full
@@ -3069,7 +3094,12 @@ func (lofs *nfs40LockOwnerFileState) remove(p *nfs40Program, ll *leavesToClose) 
 			panic("Failed to release locks")
 		}
 	}
+	lofs.remove(p, ll)
+}
 
+// remove the lock-owner file, without releasing any locks the
+// lock-owner holds in the file.
+func (lofs *nfs40LockOwnerFileState) remove(p *nfs40Program, ll *leavesToClose) {
 	// Remove the lock-owner file from maps.
 	delete(p.lockOwnerFilesByOther, lofs.stateID.other)
 	los := lofs.lockOwner
